@@ -119,6 +119,7 @@ def run(ctx: Ctx, rep: Report) -> None:
     rep.rule("C16-R5", "the wrapper keeps '0' and pythonises the other cells", floor=1)
     rep.rule("C16-R6", "no cell from outside the table: the walk's containment / once-only filter (shared with C01-R1/R2)", floor=4)
     rep.rule("C16-R9", "the pythonic table methods hand the OID, bulk size and row type to the raw table fetches one-to-one (shared with C15-R4)", floor=1)
+    rep.rule("C16-R10", "an SNMPv3 report (usmStats counter) arriving instead of a table row raises; it cannot end the fetch as an OID outside the table (shared with C12-R4)", floor=3)
     rep.rule("C16-R8", "a table at the end of an SNMPv1 agent's MIB: the class construct() builds for noSuchName is the one the walk loop ends quietly on", floor=1)
     rep.rule("C16-R7", "the GETBULK walk used by bulktable delivers what the GETNEXT walk delivers (shared with C02-R1..R5)", floor=30)
     rep.assumptions += ["the walk delivers exactly the instances below the root (C01 / C02)", "table() is addressed by the entry OID and bulktable() by the table OID, as documented"]
@@ -206,6 +207,9 @@ def run(ctx: Ctx, rep: Report) -> None:
     sub = ctx.sub_run("c02", rep)
     rep.adopt_rules(sub, "C16-R7", ["C02-R1", "C02-R2", "C02-R3", "C02-R4", "C02-R5"])
     rep.adopt_rules(ctx.sub_run("c15", rep), "C16-R9", ["C15-R4"], containing="table")
+    # a usmStats report in the middle of a table fetch surfaces as an error: it is never taken for an answer that left
+    # the table (which would end the fetch quietly with a truncated table)
+    rep.adopt_rules(ctx.sub_run("c12", rep), "C16-R10", ["C12-R4"])
     if len(variants) < 2:
         rep.undecided("C16-R1", f"{client.module.path} (Client)", "both table variants call tablify", f"{len(variants)} call site(s)")
     check_v1_end(ctx, rep)
